@@ -96,7 +96,7 @@ fn judge(job: &JobSpec, cfg: &ConfigSpec, addr: AddrSeed, tier: Tier, shrinking:
 }
 
 fn run(ctx: &Ctx, mode: &str) -> Report {
-    if mode == "reorder" {
+    if mode == "reorder" || mode == "reorder_iter" {
         return super::c06::run_other(ctx, mode);
     }
     let mut report = Report::default();
@@ -144,9 +144,9 @@ pub fn def() -> CheckDef {
     CheckDef {
         id: "C16",
         level: "exploration",
-        rule: "(a) chains of 1-6 single-replica blocks (stream_iter, replication(One) edges, map, filter, flat_map, filter_map, stateful rich_map) x every batch mode x 0-5000 elements x local and multi-host layouts: collect_vec must equal the corresponding iterator chain as a sequence; (b) timestamped jobs with reorder(): per replica and iteration the output is a permutation of the input with non-decreasing timestamps, and an element with timestamp t leaves only after the input showed a watermark >= t or the end of the iteration (same-thread probe order); non-trivial = (a) >= 2 blocks and a link with >= 3 batches, (b) >= 3 released elements checked against the release rule; distinct = hash of (job, configuration)",
+        rule: "(a) chains of 1-6 single-replica blocks (stream_iter, replication(One) edges, map, filter, flat_map, filter_map, stateful rich_map) x every batch mode x 0-5000 elements x local and multi-host layouts: collect_vec must equal the corresponding iterator chain as a sequence; (b) timestamped jobs with reorder(): per replica and iteration the output is a permutation of the input with non-decreasing timestamps, and an element with timestamp t leaves only after the input showed a watermark >= t or the end of the iteration (same-thread probe order); a third mode runs reorder in chains of single-replica blocks fed by ONE scripted source replica over 1-3 iterations (timestamps restart in every iteration); non-trivial = (a) >= 2 blocks and a link with >= 3 batches, (b) >= 3 released elements checked against the release rule; distinct = hash of (job, configuration)",
         assumptions: &["the release rule is checked with probes immediately before and after reorder() in the same block"],
-        modes: |t| vec![("chains", t.pick(8, 12)), ("reorder", t.pick(4, 6))],
+        modes: |t| vec![("chains", t.pick(8, 12)), ("reorder", t.pick(4, 6)), ("reorder_iter", t.pick(3, 4))],
         run,
         replay,
     }
